@@ -69,6 +69,43 @@ def onNotif (s : Subj α) (n : Notif α) : Subj α × List (Nat × Notif α) :=
        s.obs.map (fun i => (i, Notif.next v)))
     | t => ({ s with term := some t, obs := [] }, s.obs.map (fun i => (i, t)))
 
+/-! ### The subject alone: an event history and what one subscriber sees of it -/
+
+/-- what can happen to a subject: a subscription, an unsubscription, an input notification -/
+inductive SEv (α : Type) where
+  | sub (i : Nat)
+  | unsub (i : Nat)
+  | inp (n : Notif α)
+deriving Repr
+
+/-- after `subscribe`: a subscriber that was handed a terminal at once (stopped subject) detaches -/
+def afterSub (s : Subj α) (i : Nat) : Subj α :=
+  if (s.subscribe i).2.any (fun d => d.2.isTerminal) then (s.subscribe i).1.unsubscribe i else (s.subscribe i).1
+
+/-- all deliveries `(subscriber, notification)` of a history, in order -/
+def runEv (s : Subj α) : List (SEv α) → List (Nat × Notif α)
+  | [] => []
+  | .sub i :: rest => (s.subscribe i).2 ++ runEv (s.afterSub i) rest
+  | .unsub i :: rest => runEv (s.unsubscribe i) rest
+  | .inp n :: rest => (s.onNotif n).2 ++ runEv (s.onNotif n).1 rest
+
+def seenBy (i : Nat) (r : List (Nat × Notif α)) : List (Notif α) :=
+  r.filterMap (fun d => if d.1 = i then some d.2 else none)
+
+/-- the subject's input from now on, as far as subscriber `i` is concerned: up to and including the
+first terminal, or until `i` unsubscribes -/
+def suffixFor (i : Nat) : List (SEv α) → List (Notif α)
+  | [] => []
+  | .unsub j :: rest => if j = i then [] else suffixFor i rest
+  | .sub _ :: rest => suffixFor i rest
+  | .inp n :: rest => if n.isTerminal then [n] else n :: suffixFor i rest
+
+/-- no (further) `subscribe` call by subscriber `i` -/
+def noSub (i : Nat) : List (SEv α) → Bool
+  | [] => true
+  | .sub j :: rest => j != i && noSub i rest
+  | _ :: rest => noSub i rest
+
 end Subj
 
 /-! ## The multicast world -/
